@@ -60,12 +60,14 @@ Definition bad_frequency_marker : tcp_timestamp :=
 (* (MAX_FINAL_HZ / TSTAMP_GRACE as f64) * 1000.0 = 15.0 * 1000.0, exact *)
 Definition max_backward_ticks : Z := MAX_FINAL_HZ / TSTAMP_GRACE * 1000.
 
-(* calculate_frequency_p0f_style: Ok raw_freq -> Some, Err _ -> None *)
-Definition calculate_frequency_p0f_style (current reference : tcp_timestamp) : option q :=
+(* Result<Option<f64>, String>:  Ok(Some raw) | Ok(None) = keep waiting | Err _ *)
+Inductive freq_result := FreqOk (raw : q) | FreqWait | FreqErr.
+
+Definition calculate_frequency_p0f_style (current reference : tcp_timestamp) : freq_result :=
   let ms_diff := saturating_sub (recv_time_ms current) (recv_time_ms reference) in
   let ts_diff := wrapping_sub32 (ts_val current) (ts_val reference) in
-  if ms_diff <? MIN_TWAIT then None
-  else if MAX_TWAIT <? ms_diff then None
+  if ms_diff <? MIN_TWAIT then FreqErr
+  else if MAX_TWAIT <? ms_diff then FreqErr
   else
     let is_backward := not32 ts_diff <? ts_diff in
     let guards_pass :=
@@ -74,16 +76,18 @@ Definition calculate_frequency_p0f_style (current reference : tcp_timestamp) : o
         if inverted_diff <? MIN_TS_DIFF then false
         else if (ms_diff <? TSTAMP_GRACE) && (max_backward_ticks <? inverted_diff) then false
         else true
-      else negb (ts_diff <? MIN_TS_DIFF) in
-    if negb guards_pass then None
+      else true in
+    if negb guards_pass then FreqErr
     else
       let effective_ms_diff := Z.max ms_diff 1 in
       let raw_freq :=
         if not32 ts_diff <? ts_diff
         then {| qn := - (not32 ts_diff * 1000); qd := effective_ms_diff |}   (* -(inverted as f64 * 1000.0) / ms: negative, as in p0f *)
         else {| qn := ts_diff * 1000; qd := effective_ms_diff |} in
-      if q_le (q_of_Z MIN_FINAL_HZ) raw_freq && q_le raw_freq (q_of_Z MAX_FINAL_HZ)
-      then Some raw_freq else None.
+      if negb (q_le (q_of_Z MIN_FINAL_HZ) raw_freq && q_le raw_freq (q_of_Z MAX_FINAL_HZ)) then FreqErr
+      (* forward movement at a plausible rate, but on fewer than MIN_TS_DIFF ticks: wait for more *)
+      else if ts_diff <? MIN_TS_DIFF then FreqWait
+      else FreqOk raw_freq.
 
 (* guess_frequency(raw_freq, base_guess, 0.10); is_finite always holds for a rational *)
 Definition guess_frequency (raw_freq : q) (base_guess : Z) : option Z :=
@@ -161,10 +165,11 @@ Definition check_ts_tcp (tracker : cache) (conn : connection) (from_client : boo
       if is_bad_frequency reference_ts then (tracker, (None, None))
       else
         match calculate_frequency_p0f_style current_ts reference_ts with
-        | Some raw_freq =>
+        | FreqOk raw_freq =>
             let uptime_info := calculate_uptime_from_frequency tsv (final_frequency raw_freq) in
             (tracker, if from_client then (Some uptime_info, None) else (None, Some uptime_info))
-        | None => (cache_insert tracker tracking_key bad_frequency_marker, (None, None))
+        | FreqWait => (tracker, (None, None))          (* reference kept, no marker *)
+        | FreqErr => (cache_insert tracker tracking_key bad_frequency_marker, (None, None))
         end
   | None => (cache_insert tracker tracking_key current_ts, (None, None))
   end.
@@ -221,8 +226,13 @@ Fixpoint final_tracker (tracker : cache) (h : list (segment * Z)) : cache :=
   end.
 
 (* the estimator on a pair of observations (reference first), as check_ts_tcp applies it *)
-Definition model_estimate (t1 v1 t2 v2 : Z) : option uptime :=
+Inductive eval_result := EvEst (u : uptime) | EvWait | EvBad.
+Definition model_eval (t1 v1 t2 v2 : Z) : eval_result :=
   match calculate_frequency_p0f_style (ts_now v2 t2) (ts_now v1 t1) with
-  | Some raw => Some (calculate_uptime_from_frequency v2 (final_frequency raw))
-  | None => None
+  | FreqOk raw => EvEst (calculate_uptime_from_frequency v2 (final_frequency raw))
+  | FreqWait => EvWait
+  | FreqErr => EvBad
   end.
+(* what is reported *)
+Definition model_estimate (t1 v1 t2 v2 : Z) : option uptime :=
+  match model_eval t1 v1 t2 v2 with EvEst u => Some u | _ => None end.
